@@ -691,6 +691,23 @@ def r01_9(ctx, rep):
                "the recording error listener is not attached to the %s before the entry rule runs: %s" % (
                    kind, "a character the lexer cannot tokenise is printed and dropped, and the damaged text is parsed (and cached) as if it were valid"
                    if kind == "lexer" else "syntax errors are not recorded"))
+    # the listener records EVERY reported error: syntaxError() sets its flag on every path (the lexer reports with
+    # offendingSymbol=None, the parser with a token)
+    lcls = None
+    for st in walk_local(fn):
+        if isinstance(st, ast.Assign) and isinstance(st.targets[0], ast.Name) and st.targets[0].id in listeners and isinstance(st.value, ast.Call):
+            lcls = (call_name(st.value) or "").split(".")[-1]
+    se = ctx.find(PARSER, "%s.syntaxError" % lcls) if lcls else None
+    if isinstance(se, ast.FunctionDef):
+        c2 = CFG(se, R)
+        sets = {x.id for x in c2.stmts() if isinstance(x.ast, ast.Assign) and isinstance(x.ast.targets[0], ast.Attribute) and is_name(x.ast.targets[0].value, se.args.args[0].arg)
+                and isinstance(x.ast.value, ast.Constant) and x.ast.value.value is True}
+        w = c2.must_pass(c2.entry, c2.exit, sets) if sets else [c2.nodes[c2.entry]]
+        rep.ob(R, PARSER + ":%s.syntaxError" % lcls, "every reported error sets the flag", bool(sets) and w is None,
+               "syntaxError() can return without setting the error flag (e.g. only when offendingSymbol is not None — the lexer passes None): "
+               "lexical errors are then reported but not recorded", path=c2.describe(w) if w else "")
+    else:
+        rep.ob(R, site, "error listener has a syntaxError method", False, "class %s with a syntaxError method not found" % lcls)
     walks = [x for x in cfg.stmts() if any(method_name(c) == "walk" and isinstance(c.func, ast.Attribute) for c in calls(x.ast))]
 
     def err_test(x):
@@ -727,8 +744,11 @@ def r01_9(ctx, rep):
     "a verdict carried over from the previous table's block would leave a missing T uncreated whenever that table was correct",
 )
 def r01_10(ctx, rep):
+    table_verdicts(ctx, rep, "R01.10")
+
+
+def table_verdicts(ctx, rep, R):
     from ..cfg import CFG
-    R = "R01.10"
     fn = ctx.func(PARSER, "_check_database_structure", R)
     site = PARSER + ":_check_database_structure"
     cfg = CFG(fn, R)
@@ -755,6 +775,11 @@ def r01_10(ctx, rep):
             creates.setdefault(m.group(1), x)
     if len(queries) < 2 or len(creates) < 2:
         raise MechanismMissing(R, "existence queries / CREATE TABLE statements of the two cache tables not found")
+    for t in sorted(queries):
+        w = cfg.must_pass(cfg.entry, cfg.exit, {queries[t].id})
+        rep.ob(R, site, "table %s is looked at on every path" % t, w is None,
+               "_check_database_structure can return without querying sqlite_master for `%s` (an early return after the other table): a database "
+               "in which only that table is missing or wrong is accepted, and every later statement on it fails" % t, path=cfg.describe(w) if w else "")
     dom = cfg.dominators()
     for t in sorted(creates):
         if t not in queries:
